@@ -10,6 +10,7 @@ package rt
 import (
 	"fmt"
 	"io"
+	"runtime"
 	"strconv"
 	"strings"
 	"sync"
@@ -30,12 +31,19 @@ type muxStep struct {
 	Target string `json:"target,omitempty"` // deliver: inflight | done | timedout | unknown | zero | max | garbage-opid
 	Copies int    `json:"copies,omitempty"`
 	Who    string `json:"who,omitempty"` // hold/release: reader | caller
+	// deliver: Pad extra payload bytes (frames then straddle the reader's buffer boundaries);
+	// Split > 0 hands the (adapter) stream the frame in two reads, cut after Split%len bytes
+	Pad   int `json:"pad,omitempty"`
+	Split int `json:"split,omitempty"`
 }
 
 type muxCase struct {
-	Transport  string    `json:"transport"` // adapter | nats
-	Controlled bool      `json:"controlled"`
-	Steps      []muxStep `json:"steps"`
+	Transport  string `json:"transport"` // adapter | nats
+	Controlled bool   `json:"controlled"`
+	// OneProc runs the session with GOMAXPROCS(1): every goroutine shares one P
+	// (per-P caches such as sync.Pool then hand objects from one request to the next)
+	OneProc bool      `json:"one_proc,omitempty"`
+	Steps   []muxStep `json:"steps"`
 }
 
 const (
@@ -125,6 +133,8 @@ type muxSession struct {
 	byOp     sync.Map // opid -> *muxCaller
 	ctl      *muxController
 	seq      int
+	pad      int
+	split    int
 	trace    []string
 	cleanups []func()
 }
@@ -239,12 +249,24 @@ func (s *muxSession) start(short bool) *ev.Failure {
 func (s *muxSession) response(opidStr string, nonceOp uint64, copyNo int) []byte {
 	s.seq++
 	payload := fmt.Sprintf("resp|%d|%d|%d", nonceOp, copyNo, s.seq)
+	if s.pad > 0 {
+		payload += "|" + strings.Repeat("p", s.pad)
+	}
 	return frameContent([]KV{kv("_opid", opidStr), kv("_cid", "c")}, []byte(payload))
 }
 
 func (s *muxSession) feed(opidStr string, content []byte) {
 	if s.c.Transport == "adapter" {
-		s.st.feed(refFrame(content))
+		frame := refFrame(content)
+		if cut := s.split % len(frame); s.split > 0 && cut > 0 {
+			// two reads: the second part follows once the reader has taken the first
+			// (or after a moment, if the reader is parked)
+			s.st.feed(frame[:cut])
+			waitFor(20*time.Millisecond, func() bool { return s.st.pendingIn() == 0 })
+			s.st.feed(frame[cut:])
+			return
+		}
+		s.st.feed(frame)
 		return
 	}
 	subjOp := opidStr
@@ -286,6 +308,8 @@ func (cl *muxCaller) isDone() bool {
 }
 
 func (s *muxSession) deliver(st muxStep) {
+	s.pad, s.split = st.Pad, st.Split
+	defer func() { s.pad, s.split = 0, 0 }()
 	copies := st.Copies
 	if copies < 1 {
 		copies = 1
@@ -296,7 +320,12 @@ func (s *muxSession) deliver(st muxStep) {
 		if len(cls) == 0 {
 			return
 		}
-		cl := cls[st.Caller%len(cls)]
+		var cl *muxCaller
+		if st.Caller < 0 {
+			cl = cls[len(cls)-1] // the most recently started one
+		} else {
+			cl = cls[st.Caller%len(cls)]
+		}
 		for i := 0; i < copies; i++ {
 			if st.Target == "inflight" && !cl.isDone() {
 				atomic.AddInt32(&cl.answered, 1)
@@ -348,7 +377,7 @@ func (s *muxSession) checkOutcome(i int, cl *muxCaller) *ev.Failure {
 			return ev.Failf("wrong-frame", "caller #%d sent op id %d but completed with the frame of op id %s\ntrace:\n%s", i, cl.opid, got, strings.Join(s.trace, "\n"))
 		}
 		parts := strings.Split(string(cl.resp[n:]), "|")
-		if len(parts) != 4 || parts[0] != "resp" || parts[1] != fmt.Sprint(cl.opid) {
+		if len(parts) < 4 || parts[0] != "resp" || parts[1] != fmt.Sprint(cl.opid) {
 			return ev.Failf("wrong-frame", "caller #%d (op %d) completed with payload %q that was built for another request", i, cl.opid, cl.resp[n:])
 		}
 		if atomic.LoadInt32(&cl.answered) == 0 {
@@ -381,6 +410,9 @@ func execMux(c muxCase) *ev.Failure {
 }
 
 func execMuxInner(c muxCase) *ev.Failure {
+	if c.OneProc {
+		defer runtime.GOMAXPROCS(runtime.GOMAXPROCS(1))
+	}
 	s, f := newMuxSession(c)
 	if f != nil {
 		return f
@@ -407,7 +439,17 @@ func execMuxInner(c muxCase) *ev.Failure {
 					cands = append(cands, cl)
 				}
 			}
-			if len(cands) == 0 || (c.Controlled && s.ctl.readerHeld()) {
+			if c.Controlled && s.ctl.readerHeld() {
+				// with the reader parked only callers with a short timeout are sure to return
+				var shorts []*muxCaller
+				for _, cl := range cands {
+					if cl.short {
+						shorts = append(shorts, cl)
+					}
+				}
+				cands = shorts
+			}
+			if len(cands) == 0 {
 				continue
 			}
 			cl := cands[st.Caller%len(cands)]
@@ -419,6 +461,15 @@ func execMuxInner(c muxCase) *ev.Failure {
 				return ev.Failf("lost-response", "caller (op %d) whose response was delivered did not return within %v\ntrace:\n%s", cl.opid, lim, strings.Join(s.trace, "\n"))
 			}
 			s.logf("await op=%d err=%v", cl.opid, cl.err)
+		case "await-shorts":
+			for _, cl := range s.callers {
+				if cl.short && !cl.finished && !cl.held {
+					if !s.await(cl, 2*time.Second) {
+						return ev.Failf("short-caller-stuck", "caller with %v timeout (op %d) did not return within 2s", muxShort, cl.opid)
+					}
+					s.logf("await op=%d err=%v", cl.opid, cl.err)
+				}
+			}
 		case "hold":
 			if !c.Controlled {
 				continue
@@ -533,6 +584,12 @@ func genMuxStep(t *rapid.T, controlled bool, maxCopies int, emphasis string) mux
 		st.Target = rapid.SampledFrom(targets).Draw(t, "target")
 		st.Caller = rapid.IntRange(0, 9).Draw(t, "idx")
 		st.Copies = rapid.IntRange(1, maxCopies).Draw(t, "copies")
+		if rapid.IntRange(0, 3).Draw(t, "pad?") == 0 {
+			st.Pad = rapid.SampledFrom([]int{1, 100, 1000, 4000, 4050, 4060, 4070, 4096, 5000, 9000}).Draw(t, "pad")
+		}
+		if rapid.IntRange(0, 3).Draw(t, "split?") == 0 {
+			st.Split = rapid.SampledFrom([]int{1, 2, 3, 4, 5, 6, 9, 20, 40}).Draw(t, "split")
+		}
 	case "await":
 		st.Caller = rapid.IntRange(0, 9).Draw(t, "idx")
 	case "sleep":
@@ -555,7 +612,26 @@ func genMux(maxCopies int, emphasis string) func(t *rapid.T) muxCase {
 		for i := 0; i < k; i++ {
 			c.Steps = append(c.Steps, muxStep{Op: "start", Short: rapid.IntRange(0, 5).Draw(t, "short") == 0})
 		}
+		c.OneProc = rapid.IntRange(0, 3).Draw(t, "oneproc") == 0
+		scenarioAt := -1
+		if c.Controlled && rapid.IntRange(0, 2).Draw(t, "scenario") == 0 {
+			scenarioAt = rapid.IntRange(0, n/2).Draw(t, "scenario.at")
+		}
 		for i := 0; i < n; i++ {
+			if i == scenarioAt {
+				// a response that is caught between look-up and hand-over while its request times
+				// out and the next request registers: the late frame must reach nobody
+				c.Steps = append(c.Steps,
+					muxStep{Op: "await-shorts"},
+					muxStep{Op: "start", Short: true},
+					muxStep{Op: "hold", Who: "reader"},
+					muxStep{Op: "deliver", Target: "inflight", Caller: -1, Copies: rapid.IntRange(1, 2).Draw(t, "scenario.copies")},
+					muxStep{Op: "await-shorts"})
+				for j, k := 0, rapid.IntRange(1, 3).Draw(t, "scenario.next"); j < k; j++ {
+					c.Steps = append(c.Steps, muxStep{Op: "start"})
+				}
+				c.Steps = append(c.Steps, muxStep{Op: "release", Who: "reader"})
+			}
 			c.Steps = append(c.Steps, genMuxStep(t, c.Controlled, maxCopies, emphasis))
 		}
 		return c
@@ -567,6 +643,22 @@ func classifyMux(c muxCase) ev.Class {
 	labels := []string{"transport=" + c.Transport}
 	if c.Controlled {
 		labels = append(labels, "controlled")
+	}
+	if c.OneProc {
+		labels = append(labels, "gomaxprocs=1")
+	}
+	for _, st := range c.Steps {
+		if st.Op == "deliver" && st.Pad >= 1000 {
+			labels = append(labels, "padded-frames")
+		}
+		if st.Op == "deliver" && st.Split > 0 && st.Split <= 4 && c.Transport == "adapter" {
+			labels = append(labels, "frame-size-prefix-split-across-reads")
+		}
+	}
+	for i, st := range c.Steps {
+		if st.Op == "await-shorts" && i > 0 && c.Steps[i-1].Op == "deliver" {
+			labels = append(labels, "late-frame-across-timeout-and-next-registration")
+		}
 	}
 	seen := map[string]bool{}
 	inflightDeliver := 0
